@@ -460,7 +460,7 @@ impl Property for C18 {
     }
     fn cases(&self, tier: Tier) -> usize {
         match tier {
-            Tier::Quick => 600,
+            Tier::Quick => 1800,
             Tier::Thorough => 12000,
         }
     }
